@@ -5,3 +5,4 @@ import PPModel.Mod.ParseTypes
 import PPModel.Mod.Parse
 import PPModel.Mod.Entry
 import PPModel.Driver.Parse
+import PPModel.Mod.Cache
